@@ -129,9 +129,13 @@ class DensityMatrixEvolution(MatrixData, BasisManaged, Saveable):
             
             HOmega = ham.get_RWA_skeleton()
             
+            # the rotating frame coincides with the laboratory frame at
+            # the time of the initial condition (first point of the axis)
+            t0 = self.TimeAxis.data[0]
+            
             for i, t in enumerate(self.TimeAxis.data):
                 # evolution operator
-                Ut = numpy.diag(numpy.exp(-sgn*1j*HOmega*t))
+                Ut = numpy.diag(numpy.exp(-sgn*1j*HOmega*(t-t0)))
                 # revert RWA
                 rhot = numpy.dot(Ut,numpy.dot(self.data[i,:,:],
                                               numpy.conj(Ut)))
